@@ -12,6 +12,7 @@ def scenario(args):
     seed, kw = args
     import srvworld as SW
     w = SW.ServerWorld(seed=seed, interval=kw["interval"], conn_timeout=kw["conn_timeout"], keepalive=kw["srv_ka"], temp_timeout=kw.get("temp_timeout"), msg_timeout=kw.get("srv_mt"), late_config=kw.get("late_config", False))
+    w.client_substeps = kw.get("client_substeps", 1)
     try:
         tps = int(round(1 / kw["interval"]))           # ticks per second
         order = kw.get("setters", ())                   # sequence of ("ka"|"mt"|"ct", value, "before"|"after")
@@ -26,6 +27,7 @@ def scenario(args):
             for t in range(int(max(kw.get("cli_ct0") or 2.0, dict(kw["sets"]).get("ct", 0)) * tps) + tps):
                 w.tick()
             if kw.get("force"):
+                w.clients[1]["leaving"] = True
                 cl.forceDisconnect()
             w.reconnect(1)
             for t in range(int(3.5 * tps)):
@@ -93,6 +95,15 @@ def run(ctx):
                     confs.append(dict(interval=interval, srv_ka=ka, conn_timeout=ct))
     # strongly asymmetric keep-alive intervals (the server speaks every 2 s, the client every 0.1 s): each side keeps ITS cadence whatever it measures of the other
     confs.append(dict(interval=1 / 60, srv_ka=2.0, conn_timeout=5.0))
+    # the server's first datagram after the handshake (the one that acknowledges the challenge response) comes later than the client's message time-out,
+    # in configurations where every keep-alive interval is still below every connection time-out: the link is idle and healthy and must stay up
+    # (the client runs at its own frame rate: several updates per server tick)
+    slow = [dict(interval=0.35, srv_ka=0.9, conn_timeout=5.0, client_substeps=21), dict(interval=0.25, srv_ka=0.95, conn_timeout=5.0, client_substeps=15),
+            dict(interval=0.2, srv_ka=0.25, conn_timeout=5.0, client_substeps=12, setters=(("mt", 0.3, "before"),)),
+            dict(interval=0.2, srv_ka=0.25, conn_timeout=5.0, client_substeps=12, setters=(("mt", 0.3, "after"),))]
+    for cf in slow:
+        jobs.append((ctx.seed, dict(cf, idle=12.0)))
+        names.append("idle, first answer slower than the client's message time-out %s" % cf)
     # idle links stay up; cut at every tick of one keep-alive period
     for cf in confs:
         tps = int(round(1 / cf["interval"]))
